@@ -14,6 +14,7 @@ operation, so it needs no knowledge of which parameters the implementation accep
 """
 import logging
 import re
+import warnings
 from urllib.parse import urljoin
 
 from common import compare, load_corpus
@@ -624,27 +625,31 @@ def rand_body(rng, want_links):
 
 
 def rand_params(rng, malformed):
-    """lt / base / unknown / forbidden keys for a write; returns (items, predicted lt or None)"""
-    q, lt = [], None
+    """lt / base / unknown / forbidden keys for a write; returns (items, lt or None, looks_valid)"""
+    q, lt, valid = [], None, True
     r = rng.random()
     if r < 0.55:
-        v = rng.choice(LT_OK)
+        v = rng.choice(LT_OK + ["60", "60", "30", "90000", "120"])
         q.append(["lt", v])
         lt = int(v)
-    elif r < 0.65:
+    elif r < 0.63:
         q.append(["lt", rng.choice(LT_BAD)])
-    elif r < 0.70:
+        valid = False
+    elif r < 0.67:
         q += [["lt", rng.choice(LT_OK)], ["lt", rng.choice(LT_OK)]]
+        valid = False
     if rng.random() < 0.25:
         q.append(["base", rng.choice(BASES + REMOTES)])
         if rng.random() < 0.1:
             q.append(["base", rng.choice(BASES)])
+            valid = False
     if rng.random() < 0.3:
         q.append([rng.choice(["foo", "et", "if"]), rng.choice(["a", "b", "oic.d", "core.s core.a"])])
         if rng.random() < 0.2:
             q.append(["foo", "z"])
-    if rng.random() < 0.07:
+    if rng.random() < 0.06:
         q.append([rng.choice(["rt", "href", "page", "count", "anchor"]), "x"])
+        valid = False
     if malformed:
         m = rng.randrange(7)
         if m == 0:
@@ -660,46 +665,73 @@ def rand_params(rng, malformed):
             q.append(["k y", "v"]) if rng.random() < 0.5 else q.append(["foo", 'q"uo\\te'])
         # 5, 6: nothing extra (the lookups of the history carry the oddity)
     rng.shuffle(q)
-    return q, lt
+    return q, lt, valid
 
 
 def rand_history(rng, grace, malformed):
+    """A history steered by a rough prediction of which locations are alive (steering only)."""
     ops = []
     now = 0
+    alive = {}                      # (ep, d) -> [path, lt, deadline], as the generator expects it
     deadlines = []
+
+    def sweep():
+        for k in [k for k, v in alive.items() if v[2] <= now]:
+            del alive[k]
+
+    def pick_path():
+        live = [v[0] for v in alive.values()]
+        if live and rng.random() < 0.8:
+            return rng.choice(live)
+        return rng.choice([1, 2, 3, 4, 0, 7])
+
     n = rng.randrange(6, 26)
     for _ in range(n):
         r = rng.random()
         remote = rng.choice(REMOTES + [REMOTES[0]]) if rng.random() < 0.95 else None
-        if r < 0.28:
+        if r < 0.27:
             ep, d = rng.choice(EPS), rng.choice(DS)
-            q, lt = rand_params(rng, malformed and rng.random() < 0.3)
+            q, lt, valid = rand_params(rng, malformed and rng.random() < 0.3)
             head = [["ep", ep]] if rng.random() < 0.95 else ([] if rng.random() < 0.5 else [["ep", ep], ["ep", "n9"]])
+            valid = valid and len(head) == 1
             if d is not None:
                 head.append(["d", d])
             q = head + q
             if rng.random() < 0.2:
                 rng.shuffle(q)
-            ops.append(["R", remote, q, rand_body(rng, True)])
-            deadlines.append(now + ((lt if lt is not None else 90000) + grace) * TPS)
-        elif r < 0.43:
-            q, lt = rand_params(rng, malformed and rng.random() < 0.3)
+            body = rand_body(rng, True)
+            ops.append(["R", remote, q, body])
+            if valid and body[0] == "l" and body[1][0] != "g" and (remote is not None or any(i[0] == "base" for i in q)):
+                path = alive[(ep, d)][0] if (ep, d) in alive else min(
+                    i for i in range(1, 50) if i not in [v[0] for v in alive.values()])
+                lt = 90000 if lt is None else lt
+                alive[(ep, d)] = [path, lt, now + (lt + grace) * TPS]
+                deadlines.append(alive[(ep, d)][2])
+                sweep()
+        elif r < 0.47:
+            kind = "U" if rng.random() < 0.68 else "P"
+            q, lt, valid = rand_params(rng, malformed and rng.random() < 0.3)
             if rng.random() < 0.05:
                 q.append(rng.choice([["ep", "n1"], ["d", "s1"]]))
-            ops.append(["U", rng.choice([1, 1, 2, 2, 3, 4, 0, 7]), remote, q, rand_body(rng, False)])
-            if lt is not None:
-                deadlines.append(now + (lt + grace) * TPS)
-            deadlines += [now + (l + grace) * TPS for l in (0, 1, 2, 5, 60, 7)][:2]
-        elif r < 0.50:
-            q, lt = rand_params(rng, malformed and rng.random() < 0.3)
-            ops.append(["P", rng.choice([1, 1, 2, 2, 3, 4, 0]), remote, q, rand_body(rng, True)])
-            if lt is not None:
-                deadlines.append(now + (lt + grace) * TPS)
-        elif r < 0.56:
-            ops.append(["X", rng.choice([1, 2, 2, 3, 4, 5])])
-        elif r < 0.62:
-            ops.append(["G", rng.choice([1, 2, 3, 4, 0])])
-        elif r < 0.80:
+                valid = False
+            path = pick_path()
+            body = rand_body(rng, kind == "P")
+            ops.append([kind, path, remote, q, body])
+            ok_body = (body == NOBODY) if kind == "U" else (body[0] == "l" and body[1][0] != "g")
+            for k, v in alive.items():
+                if v[0] == path and valid and ok_body:
+                    v[1] = v[1] if lt is None else lt
+                    v[2] = now + (v[1] + grace) * TPS
+                    deadlines.append(v[2])
+            sweep()
+        elif r < 0.53:
+            path = pick_path()
+            ops.append(["X", path])
+            for k in [k for k, v in alive.items() if v[0] == path]:
+                del alive[k]
+        elif r < 0.59:
+            ops.append(["G", pick_path()])
+        elif r < 0.79:
             k = rng.random()
             future = [x for x in deadlines if x - 1 > now]
             if k < 0.55 and future:
@@ -711,6 +743,7 @@ def rand_history(rng, grace, malformed):
             dt = max(dt, 1)
             now += dt
             ops.append(["T", dt])
+            sweep()
         else:
             kind = rng.choice("EES")
             q = []
@@ -726,8 +759,8 @@ def rand_history(rng, grace, malformed):
             elif c < 0.58:
                 q.append([rng.choice(["foo", "et", "if", "base", "ct", "anchor", "lt"]),
                           rng.choice(["a", "oic.d", "core.s", "sensor", "40", REMOTES[0] + "/", REMOTES[0]])])
-            if rng.random() < 0.15:
-                q.append(["ep", rng.choice(EPS)])
+            if rng.random() < 0.2:
+                q.append(rng.choice([["ep", rng.choice(EPS)], ["d", "s1"], ["rt", "x"], ["rt", "temp"]]))
             if malformed and rng.random() < 0.3:
                 q.append(rng.choice([["page", "0"], ["count", "1"], ["page", "0"], ["rt", "core.*"], ["ep", "n*"], ["foo"], ["ep"]]))
                 if q[-1] == ["page", "0"]:
@@ -753,6 +786,7 @@ def run(env, rep):
     aiocoap = env.import_repo()
     logging.getLogger("resource-directory").setLevel(logging.CRITICAL)
     logging.getLogger("asyncio").setLevel(logging.CRITICAL)
+    warnings.filterwarnings("ignore", message=".* is deprecated, use .*")   # aiocoap.util.DeprecationWarning
     import aiocoap.cli.rd as rd
     grace = rd.CommonRD.Registration.grace_period
     if not isinstance(grace, int):
@@ -763,7 +797,7 @@ def run(env, rep):
     table = boundary_table(grace)
     cases += [("boundary", ops) for ops in table]
     rep.exhaustive_parts.append(f"boundary table: {len(table)} histories (deadlines -1/0/+1 tick, 4.xx kinds, locations, filters)")
-    n = env.scale(260, 6000)
+    n = env.scale(1400, 40000)
     for i in range(n):
         malformed = i % 7 == 6                      # ~14 % of the random histories
         cases.append(("malformed" if malformed else "random", rand_history(env.rng, grace, malformed)))
@@ -794,13 +828,18 @@ def run(env, rep):
     if mal * 2 > len(cases):
         from common import HarnessError
         raise HarnessError("malformed stream exceeds 50 % of the cases")
-    if not rep.hist.get("histories-with-expiry") or not rep.hist.get("response=E400"):
-        rep.notes.append("generator produced no expiry or no 4.00")
+    # every kind of answer the model can give must have been exercised (boundary table guarantees it)
+    missing = [k for k in ("C", "H", "D", "E400", "E404", "E415", "T", "G[", "L[")
+               if not rep.hist.get("response=" + k)]
+    if missing or not rep.hist.get("histories-with-expiry"):
+        from common import HarnessError
+        raise HarnessError(f"generated histories never produced {missing or 'an expiry'}")
 
 
 def replay(env, case):
     aiocoap = env.import_repo()
     logging.getLogger("resource-directory").setLevel(logging.CRITICAL)
     logging.getLogger("asyncio").setLevel(logging.CRITICAL)
+    warnings.filterwarnings("ignore", message=".* is deprecated, use .*")   # aiocoap.util.DeprecationWarning
     _, verdict, _, _, _ = run_case(aiocoap, case["ops"])
     return verdict
